@@ -165,6 +165,24 @@ pub fn gen_world(seed: u64, idx: u64, s: &dyn SuiteOps, chunk: usize, nchunks: u
                 cands.push(x);
             }
         }
+        // every proper prefix / suffix of each byte field (nonces, masked response, MAC) kept and
+        // the rest of the field set to 00 / FF
+        for f in fl.iter().filter(|f| matches!(f.ty, crate::layout::FieldTy::Bytes)) {
+            for k in 0..f.len {
+                for fill in [0u8, 0xFF] {
+                    let mut x = genuine.clone();
+                    for b in x[f.off + k..f.off + f.len].iter_mut() {
+                        *b = fill;
+                    }
+                    cands.push(x);
+                    let mut x = genuine.clone();
+                    for b in x[f.off..f.off + f.len - k].iter_mut() {
+                        *b = fill;
+                    }
+                    cands.push(x);
+                }
+            }
+        }
         // every value of the tag / leading byte and of the last byte of each group-element field
         for f in fl.iter().filter(|f| !matches!(f.ty, crate::layout::FieldTy::Bytes)) {
             for o in [f.off, f.off + f.len - 1] {
@@ -244,7 +262,7 @@ pub fn gen_world(seed: u64, idx: u64, s: &dyn SuiteOps, chunk: usize, nchunks: u
 
 pub fn run(ctx: &Ctx) -> Report {
     let mut rep = Report::new(
-        "per sampled honest login (3 registrations, 2 server setups, donors: other session of the same user, a second response to the same request, other user, fake record, other server, a server with the same OPRF seed and the same password file under another static key): chunk 0 = whole foreign responses, every single-field and field-pair splice from every donor, 4 re-randomisations, zeroing, rotation, 24 XOR-cancelling byte pairs and 12 adjacent transpositions per byte field, reflection (beta := own blinded element), 7 wrong lengths, all 255 other values of the first and last byte of both group-element fields, and one substitution per offset of the response's bincode and JSON encodings (delivered through that codec); chunks 1..k = substitution at EVERY offset of the response (quick: all 8 single-bit flips + 1 seeded multi-bit value per offset; thorough: all 255 values per offset, i.e. exhaustive in offset x value); the genuine response is delivered last through native bytes and must be accepted. non-trivial = world contains a predicted rejection; mutated bytes that canonicalise to the genuine response are skipped (alias_skipped) — aliases are C10's business",
+        "per sampled honest login (3 registrations, 2 server setups, donors: other session of the same user, a second response to the same request, other user, fake record, other server, a server with the same OPRF seed and the same password file under another static key): chunk 0 = whole foreign responses, every single-field and field-pair splice from every donor, 4 re-randomisations, zeroing, rotation, 24 XOR-cancelling byte pairs and 12 adjacent transpositions per byte field, reflection (beta := own blinded element), 7 wrong lengths, every proper prefix/suffix of each byte field padded with 00/FF, all 255 other values of the first and last byte of both group-element fields, and one substitution per offset of the response's bincode and JSON encodings (delivered through that codec); chunks 1..k = substitution at EVERY offset of the response (quick: all 8 single-bit flips + 1 seeded multi-bit value per offset; thorough: all 255 values per offset, i.e. exhaustive in offset x value); the genuine response is delivered last through native bytes and must be accepted. non-trivial = world contains a predicted rejection; mutated bytes that canonicalise to the genuine response are skipped (alias_skipped) — aliases are C10's business",
     );
     rep.exhaustive = Some(true);
     let mut suites: Vec<&'static dyn SuiteOps> = SIM_SUITES.to_vec();
